@@ -509,7 +509,7 @@ run_child(const struct plan * P, uint64_t seed, int fromseed)
 	struct plan Q;
 	struct prng g;
 
-	alarm(30);
+	alarm(20);
 	if (errfd >= 0) {
 		dup2(errfd, 2);
 	}
@@ -614,7 +614,8 @@ print_outcome(FILE * f, const char * tag, uint64_t seed, const struct outcome * 
 
 /* ================= batch ================= */
 struct totals {
-	uint64_t runs, held, viol, crash, internal, hang, foreign, sim_ns, steps, nontrivial;
+	uint64_t runs, held, viol, crash, internal, hang, foreign, steps, nontrivial;
+	double sim_ns;
 	uint64_t cnt[REC_NCNT];
 	uint64_t af_points, c14_skipped;
 };
@@ -634,7 +635,7 @@ account(struct totals * T, const struct outcome * o, FILE * hf)
 	case 4: T->hang++; break;
 	}
 	T->foreign += R->foreign;
-	T->sim_ns += R->sim_ns;
+	T->sim_ns += (double)R->sim_ns;
 	T->steps += R->steps;
 	T->nontrivial += (uint64_t)(R->nontrivial != 0);
 	for (i = 0; i < REC_NCNT; i++)
@@ -723,7 +724,7 @@ batch(uint64_t first, uint64_t count, const char * prefix, int maxreport)
 	gettimeofday(&t1, NULL);
 	fprintf(jf, "{\"t\":\"summary\",\"first\":%" PRIu64 ",\"count\":%" PRIu64 ",\"runs\":%" PRIu64
 	    ",\"held\":%" PRIu64 ",\"viol\":%" PRIu64 ",\"crash\":%" PRIu64 ",\"internal\":%" PRIu64
-	    ",\"hang\":%" PRIu64 ",\"foreign\":%" PRIu64 ",\"sim_ns\":%" PRIu64 ",\"steps\":%" PRIu64
+	    ",\"hang\":%" PRIu64 ",\"foreign\":%" PRIu64 ",\"sim_ns\":%.0f,\"steps\":%" PRIu64
 	    ",\"nontrivial\":%" PRIu64 ",\"af_points\":%" PRIu64 ",\"c14_skipped\":%" PRIu64 ",\"wall_s\":%.3f,\"cnt\":{",
 	    first, count, T.runs, T.held, T.viol, T.crash, T.internal, T.hang, T.foreign, T.sim_ns,
 	    T.steps, T.nontrivial, T.af_points, T.c14_skipped,
